@@ -66,6 +66,18 @@ def run(check, scenarios, props, depth=None, devbound=None, seconds=None, tag="n
         if rc != 0 or val is None:
             # A dying worker is a verdict of its own (crash inside ninja code) unless it is exit 2
             # (harness error).
+            crash = [ln for ln in err.splitlines() if ln.startswith("NXCRASH ")]
+            if crash:
+                cj = json.loads(crash[-1][8:])
+                sc = scenarios[cj["scenario_index"]]
+                for h in cj["history"]:
+                    h["label"] = sc["ops"][h["op"]].get("label", "op%d" % h["op"])
+                check.violation("crash inside ninja (signal %d) in %s  history: %s  (other scenarios of this shard were not "
+                                "explored)" % (cj["signal"], sc["name"], " ; ".join("%s%s" % (h["label"], h["choices"] or "")
+                                                                                    for h in cj["history"])),
+                                {"engine": "nx", "scenario": sc, "history": cj["history"], "clause": "crash",
+                                 "facts": {"signal": cj["signal"]}, "detail": err[-1500:]})
+                continue
             if rc == 2:
                 check.harness_error("nx shard failed: %s\n%s" % (" ".join(cmd), err[-3000:]))
             check.violation("nx worker died (rc=%s) -- crash inside ninja under exploration?\n%s" % (rc, err[-2000:]),
@@ -115,6 +127,9 @@ def run(check, scenarios, props, depth=None, devbound=None, seconds=None, tag="n
 def replay(check, props):
     exe = nx_exe()
     rc1 = subprocess.call([exe, "replay=" + check.replay, "props=" + ",".join(props)], stdout=sys.stdout)
+    if rc1 < 0 or rc1 in (134, 139):
+        print("replay: ninja crashed with signal %d on this history" % abs(rc1))
+        sys.exit(1)
     sys.exit(1 if rc1 == 1 else (0 if rc1 == 0 else 2))
 
 
